@@ -180,6 +180,11 @@ func c06Sparse(t *rapid.T) []kit.Argv {
 	name := func() string { return "w" + strconv.Itoa(rapid.IntRange(0, 199).Draw(t, "w")) }
 	var out []kit.Argv
 	var names []string
+	if rapid.IntRange(0, 2).Draw(t, "tail") == 0 {
+		x, y := tailPair(t)
+		names = append(names, x, y)
+		out = append(out, kit.A("SADD", x, "m"), kit.A("SET", y, "v"))
+	}
 	for i := rapid.IntRange(2, 7).Draw(t, "nk"); i > 0; i-- {
 		k := name()
 		names = append(names, k)
@@ -235,6 +240,34 @@ func c06Alias(t *rapid.T) []kit.Argv {
 	return out
 }
 
+// c06TailCollection: a set or hash whose only members sit in the last two buckets of its 32-bucket table, add/remove
+// cycles that take the table to its shrink check, then the members are removed one by one: when the last one
+// goes the key must be gone.
+func c06TailCollection(t *rapid.T) []kit.Argv {
+	x, y := tailPair(t)
+	k := pick(t, "tk", "a", "b", "c")
+	set := rapid.Bool().Draw(t, "tset")
+	out := []kit.Argv{kit.A("DEL", k)}
+	if set {
+		out = append(out, kit.A("SADD", k, x, y))
+	} else {
+		out = append(out, kit.A("HSET", k, x, "1", y, "2"))
+	}
+	for i := churnCount(t) + 17; i > 0; i-- {
+		if set {
+			out = append(out, kit.A("SADD", k, "churn"), kit.A("SREM", k, "churn"))
+		} else {
+			out = append(out, kit.A("HSET", k, "churn", "1"), kit.A("HDEL", k, "churn"))
+		}
+	}
+	if set {
+		out = append(out, kit.A("SMEMBERS", k), kit.A("SREM", k, x), kit.A("SCARD", k), kit.A("SREM", k, y))
+	} else {
+		out = append(out, kit.A("HGETALL", k), kit.A("HDEL", k, y), kit.A("HLEN", k), kit.A("HDEL", k, x))
+	}
+	return append(out, kit.A("EXISTS", k), kit.A("TYPE", k), kit.A("DBSIZE"))
+}
+
 // c06GoneDest: the destination of a two-key command was removed just before - by DEL, or in one of the ways
 // that leave it in the table (UNLINK, a deadline in the past). Every command must treat it as absent.
 func c06GoneDest(t *rapid.T) []kit.Argv {
@@ -255,7 +288,9 @@ func c06Gen(t *rapid.T) SeqCase {
 	}
 	n := rapid.IntRange(6, 30).Draw(t, "steps")
 	for i := 0; i < n; i++ {
-		switch weighted(t, "kind", []int{9, 4, 5, 3, 1, 2, 2}) {
+		switch weighted(t, "kind", []int{9, 4, 5, 3, 1, 2, 2, 1}) {
+		case 7:
+			steps = append(steps, c06TailCollection(t)...)
 		case 6:
 			steps = append(steps, c06GoneDest(t)...)
 		case 5:
